@@ -147,7 +147,8 @@ def merge_T(sig):
 
 
 def decode_entities(s):
-    return html.unescape(s)
+    """character references as wikitext has them: with their semicolon (html.unescape alone would also take '&#1' or '&#xBar')."""
+    return re.sub(r"&(#[xX]?[0-9a-fA-F]+|[A-Za-z][A-Za-z0-9]*);", lambda m: html.unescape(m.group(0)), s)
 
 
 def check_case(tag, body, ctxname):
